@@ -115,6 +115,15 @@ def run(ck, ctx):
         loops = [n for n in ast.walk(fl.node) if isinstance(n, ast.For)]
         ok_all = len(loops) == 1 and ast.unparse(loops[0].iter).replace(" ", "") == "d.items()" and \
             not any(isinstance(n, (ast.Continue, ast.Break)) for n in ast.walk(fl.node))
+        # every item takes exactly one of two unconditional routes: recurse (mapping) or emit (anything else)
+        if ok_all:
+            body = loops[0].body
+            last = body[-1] if body else None
+            ok_all = isinstance(last, ast.If) and len(last.body) == 1 and len(last.orelse) == 1 and \
+                isinstance(last.body[0], ast.Expr) and isinstance(last.body[0].value, ast.YieldFrom) and \
+                isinstance(last.orelse[0], ast.Expr) and isinstance(last.orelse[0].value, ast.Yield) and \
+                all(isinstance(b, (ast.Assign, ast.AnnAssign)) for b in body[:-1]) and \
+                not any(isinstance(n, ast.If) for b in body[:-1] for n in ast.walk(b))
         ck.ob("R16.1", "flattener: key = parent + sep + k", ok_join, (m.relpath, fl.node.lineno, 0), "_flat", "")
         ck.ob("R16.1", "flattener: recurses into every mapping with the same separator", ok_rec,
               (m.relpath, fl.node.lineno, 0), "_flat", "")
